@@ -154,6 +154,7 @@ Fixpoint coerce (fuel : nat) (es : bool) (ss : list sdef) (t : gty) (v : value) 
   match fuel with
   | O => OutOfFuel
   | S fu =>
+    if is_poison v then Done v else      (* an undefined value may be copied; using it is UB *)
     match t with
     | TUnknown => Done v
     | TVoid => TYPE "value of type void"
@@ -229,11 +230,30 @@ Fixpoint zero_of (fuel : nat) (ss : list sdef) (t : gty) {struct fuel} : result 
     end
   end.
 
+(* the value of a variable declared without initialiser: undefined leaves in the shape of its type *)
+Fixpoint poison_of (fuel : nat) (ss : list sdef) (t : gty) {struct fuel} : value :=
+  match fuel with
+  | O => POISON
+  | S fu =>
+    match t with
+    | TVec _ n => VVec (repeat POISON n)
+    | TMat c r => VMat (repeat (VVec (repeat POISON r)) c)
+    | TStruct n =>
+      match find_struct ss n with
+      | Some sd => VStruct (map (fun m => poison_of fu ss (snd m)) (s_members sd))
+      | None => POISON
+      end
+    | TArr e (Some n) => VArr (repeat (poison_of fu ss e) n)
+    | _ => POISON
+    end
+  end.
+
 Section WithProgram.
 Variable P : prog.
 
 Definition cfuel : nat := S (S (List.length (p_structs P))).
 Definition conform (t : gty) (v : value) : result value := coerce (cfuel + 8) (p_es P) (p_structs P) t v.
+Definition undef (t : gty) : value := poison_of (cfuel + 8) (p_structs P) t.
 
 Definition ctor_struct (n : string) (args : list value) : result value :=
   match find_struct (p_structs P) n with
@@ -322,19 +342,25 @@ Fixpoint eval_expr (e : expr) : result tv :=
       match find_struct (p_structs P) n with
       | Some sd =>
         match member_index (s_members sd) f 0 with
-        | Some (i, mt) => l <~ elems (snd r) ;; v <~ nth_res "TYPE: struct value shorter than its type" l i ;; Done (mt, v)
+        | Some (i, mt) =>
+          l <~ elems (snd r) ;; v <~ nth_res "TYPE: struct value shorter than its type" l i ;;
+          if is_poison v then UB ("read of an uninitialised member " ++ f) else Done (mt, v)
         | None => TYPE ("struct " ++ n ++ " has no member " ++ f)
         end
       | None => TYPE ("undeclared struct type " ++ n)
       end
-    | _ => v <~ swizzle (snd r) f ;; Done (TUnknown, v)
+    | _ =>
+      v <~ swizzle (snd r) f ;;
+      if is_poison v || match v with VVec l => existsb is_poison l | _ => false end
+      then UB "read of an uninitialised vector component" else Done (TUnknown, v)
     end
   | EIndex a i =>
     r <~ eval_expr a ;; ri <~ eval_expr i ;; n <~ index_of (snd ri) ;;
     l <~ elems (snd r) ;;
     match snd r with
     | VStruct _ => TYPE "indexing a struct"
-    | _ => v <~ nth_res "UB: index out of bounds" l n ;; Done (elem_ty (fst r), v)
+    | _ => v <~ nth_res "UB: index out of bounds" l n ;;
+           if is_poison v then UB "read of an uninitialised element" else Done (elem_ty (fst r), v)
     end
   | ELength a =>
     r <~ eval_expr a ;;
@@ -467,7 +493,7 @@ Fixpoint bind_params (st : state) (ps : list param) (args : list expr) : result 
       | PInout =>
         lv <~ eval_lvalue st a ;; v <~ load_lv st lv ;; v' <~ conform (p_ty p) v ;;
         Done ((p_name p, (p_ty p, v')) :: sc, (p_name p, lv) :: outs)
-      | POut => lv <~ eval_lvalue st a ;; Done ((p_name p, (p_ty p, POISON)) :: sc, (p_name p, lv) :: outs)
+      | POut => lv <~ eval_lvalue st a ;; Done ((p_name p, (p_ty p, undef (p_ty p))) :: sc, (p_name p, lv) :: outs)
       end
     end
   | _, _ => TYPE "call with a wrong number of arguments"
@@ -525,7 +551,7 @@ with exec_stmt (fuel : nat) (s : stmt) (st : state) {struct fuel} : result (outc
   | O => OutOfFuel
   | S fu =>
     match s with
-    | SDecl t x None => st' <~ declare st x t POISON ;; Done (ONormal, st')
+    | SDecl t x None => st' <~ declare st x t (undef t) ;; Done (ONormal, st')
     | SDecl t x (Some e) =>
       r <~ eval_rhs fu e st ;;
       let '(res, st1) := r in
@@ -742,11 +768,11 @@ Fixpoint init_globals (gs : list gvar) (buffers builtins : list (string * value)
              | Some v => coerce (cfuel + 8) true (p_structs P) (g_ty g) v
              | None => Fail ("HARNESS: no value supplied for built-in " ++ g_name g)
              end
-           | GShared => if shared_zero then zero_of (cfuel + 8) (p_structs P) (g_ty g) else Done POISON
+           | GShared => if shared_zero then zero_of (cfuel + 8) (p_structs P) (g_ty g) else Done (undef (g_ty g))
            | GPlain | GConst =>
              match g_init g with
              | Some e => r <~ eval_expr (mkst acc []) e ;; conform (g_ty g) (snd r)
-             | None => match g_kind g with GConst => TYPE "const without initialiser" | _ => Done POISON end
+             | None => match g_kind g with GConst => TYPE "const without initialiser" | _ => Done (undef (g_ty g)) end
              end
            end ;;
       init_globals gs' buffers builtins shared_zero (acc ++ [(g_name g, (g_ty g, v))])%list
